@@ -28,7 +28,14 @@ func baseWorlds() []*wm.World {
 		}
 	}
 	nss := []wm.NS{{Name: "ns1", Labels: map[string]string{"team": "a"}, HasObj: true}}
+	omit := func() []wm.Workload { // workloads (and the policy) without metadata.namespace: the default namespace by omission
+		l := wls()
+		l[0].NS, l[1].NS = "", ""
+		return l
+	}
 	return []*wm.World{
+		{NSs: nss, WLs: omit(), NPs: []wm.NP{
+			{NS: "", Name: "p", PodSel: *wm.ML("app", "b"), Types: []string{"Ingress"}, Ingress: []wm.NPRule{{Peers: []wm.NPPeer{{Pod: wm.ML("app", "a")}}, Ports: []wm.NPPort{{HasPort: true, Num: 8080}}}}}}},
 		{NSs: nss, WLs: wls(), NPs: []wm.NP{
 			{NS: "ns1", Name: "p", PodSel: *wm.ML("app", "a"), Types: []string{"Ingress", "Egress"},
 				Ingress: []wm.NPRule{{Peers: []wm.NPPeer{{Pod: wm.ML("app", "b")}, {CIDR: "10.0.0.0/8"}}, Ports: []wm.NPPort{{HasPort: true, Name: "http"}}}},
@@ -112,8 +119,12 @@ func eval(cs Case, x *fw.Rec) {
 			k, rp = cs.Kind, cs.Repl
 		}
 		expInfos = append(expInfos, wm.Express(wl, k, rp)...)
-		nw := wl.NS + "/" + wl.Name + "[" + wm.ExpressedKind(k) + "]"
-		ren[nw] = wl.PeerString()
+		ns := wl.NS
+		if ns == "" {
+			ns = "default"
+		}
+		nw := ns + "/" + wl.Name + "[" + wm.ExpressedKind(k) + "]"
+		ren[nw] = ns + "/" + wl.Name + "[" + wl.Kind + "]"
 		wantPeers = append(wantPeers, nw)
 	}
 	infos = append(expInfos, infos...)
